@@ -517,16 +517,30 @@ impl Axecutor {
         // Also make sure there's no overlapping area already defined, including code region
         for (i, area) in self.state.memory.iter().enumerate() {
             if start_addr == area.start {
+                // This is the area that is resized, it cannot collide with itself
                 area_to_resize = Some(i);
+                continue;
             }
 
-            // Make sure the new length doesn't overlap with any other area after it
-            if start_addr + new_size > area.start {
+            // Make sure the new extent doesn't overlap with any other area: that is the case if
+            // this area starts inside the other one or the other one starts inside the new extent
+            let overlaps = new_size > 0
+                && (area.contains(start_addr)
+                    || (area.length > 0
+                        && area.start > start_addr
+                        && area.start - start_addr < new_size));
+            if overlaps {
                 return Err(AxError::from(format!(
                     "Cannot resize section at address {:#x} to length {}, as it overlaps with another section starting at {:#x} (len={})",
                     start_addr, new_size, area.start, area.length
                 )));
             }
+        }
+
+        if new_size > 0 && start_addr.checked_add(new_size - 1).is_none() {
+            return Err(AxError::from(format!(
+                "Cannot resize section at address {start_addr:#x} to length {new_size}, as it would not fit in the address space"
+            )));
         }
 
         if let Some(i) = area_to_resize {
